@@ -93,22 +93,34 @@ func TestMuxWrite(t *testing.T) {
 	dlSample := []string{}
 	all := append(append([]string{}, job.Writers...), job.Aborters...)
 	sort.Strings(all)
-	for _, path := range readPaths(t, job.Paths) {
+	for pathNo, path := range readPaths(t, job.Paths) {
 		st["paths"]++
 		synctest.Test(t, func(t *testing.T) {
 			s := newSched("mw.")
 			ice.VerifUDPMuxSetYield(s.yield)
 			defer ice.VerifUDPMuxSetYield(nil)
 			sock := newSock(&net.UDPAddr{IP: net.IPv4(127, 0, 0, 1), Port: 1})
-			mux := ice.NewUDPMuxDefault(ice.UDPMuxParams{UDPConn: sock, Logger: lf.NewLogger("ice")})
+			var under net.PacketConn = sock
+			addrPort := pathNo%2 == 1 // every other path: a socket with the netip.AddrPort calls, written to through the mux's AddrPort path
+			if addrPort {
+				under = fakeAddrPortSocket{sock}
+			}
+			mux := ice.NewUDPMuxDefault(ice.UDPMuxParams{UDPConn: under, Logger: lf.NewLogger("ice")})
 			dst := &net.UDPAddr{IP: net.IPv4(10, 0, 0, 9), Port: 9}
+			muxWrite := func(b []byte) (int, error) {
+				if addrPort {
+					return ice.VerifMuxWriteToAddrPort(mux, b, dst.AddrPort())
+				}
+
+				return ice.VerifMuxWriteTo(mux, b, dst)
+			}
 			var dm sync2
 			completed := map[string]int{}
 			for _, n := range job.Writers {
 				n := n
 				s.spawn(n, func() {
 					for i := 0; i < job.Rounds; i++ {
-						_, _ = ice.VerifMuxWriteTo(mux, []byte("x"), dst)
+						_, _ = muxWrite([]byte("x"))
 						dm.do(func() { completed[n]++ })
 					}
 				})
@@ -190,7 +202,7 @@ func TestMuxWrite(t *testing.T) {
 			if !stuck {
 				// a later write by any user
 				var perr error
-				s.spawn("probe", func() { _, perr = ice.VerifMuxWriteTo(mux, []byte("probe"), dst) })
+				s.spawn("probe", func() { _, perr = muxWrite([]byte("probe")) })
 				for i := 0; i < 16 && s.step("probe"); i++ {
 				}
 				switch {
